@@ -337,6 +337,7 @@ func registerMisc(e *Engine) {
 	registerCodec(e)
 	registerHTTP(e)
 	registerCtxModel(e)
+	registerBufr(e)
 	if os.Getenv("GOSYM_NOSUMMARIES") == "" {
 		registerIRC(e)
 	}
